@@ -56,4 +56,133 @@ def importRequestOk (ranged active internal hasLabel : Bool) (keyRange : Option 
 def importedOk (nRequests : Nat) (successes : List Bool) : Bool :=
   nRequests == successes.length && successes.all id
 
+/-! ### a node's replies as JSON values (`fields_from_json_object`, `list_from_json_array`, `int_from_json_number`)
+
+`watched_range` and `assert_imported` read what a node answered; since /repo 085a2201 every access goes through the json
+guards of `btclib/utils.py`, so a reply of another shape is refused with a BTClibTypeError / BTClibValueError instead of
+leaving through KeyError / IndexError / AttributeError / OverflowError / a bare ValueError. -/
+
+/-- a decoded JSON value.  A float is `some n` when it is whole (`float.is_integer()`), `none` otherwise (1.5, nan, inf). -/
+inductive J
+  | null
+  | bool (b : Bool)
+  | int (n : Int)
+  | float (whole : Option Int)
+  | str (s : List Char)
+  | arr (l : List J)
+  | obj (kv : List (List Char × J))
+
+/-- the exception classes: BTClibValueError, BTClibTypeError, BTClibRuntimeError. -/
+inductive JErr | value | type | runtime
+  deriving DecidableEq, Repr
+
+abbrev R := Except JErr
+
+/-- `fields_from_json_object`: a Mapping, or BTClibTypeError. -/
+def J.fields : J → R (List (List Char × J))
+  | .obj kv => .ok kv
+  | _ => .error .type
+
+/-- `dict_[key]` on a `_JsonObject`: a missing field is a BTClibValueError. -/
+def getField (kv : List (List Char × J)) (k : String) : R J :=
+  match kv.lookup k.toList with
+  | some v => .ok v
+  | none => .error .value
+
+/-- `list_from_json_array`: a list, or BTClibTypeError (a str, a Mapping, a number, null). -/
+def J.list : J → R (List J)
+  | .arr l => .ok l
+  | _ => .error .type
+
+/-- `int(text)` for the spellings the check generates: an optional sign and one or more ASCII digits, at most
+    `INT_MAX_STR_DIGITS` of them (CPython's limit); anything else is a ValueError.  (White space, `_` separators and
+    non-ASCII digits, which `int()` also reads, are not modelled and not generated.) -/
+def intOfText (s : List Char) : Option Int :=
+  let (neg, ds) := match s with
+    | '-' :: r => (true, r)
+    | '+' :: r => (false, r)
+    | r => (false, r)
+  if ds.isEmpty || !ds.all Char.isDigit || ds.length > INT_MAX_STR_DIGITS then none
+  else
+    let v : Nat := ds.foldl (fun a c => 10 * a + (c.toNat - 48)) 0
+    some (if neg then -(v : Int) else v)
+
+/-- `int_from_json_number` -/
+def J.toInt : J → R Int
+  | .bool _ => .error .type
+  | .float none => .error .value
+  | .float (some n) => .ok n
+  | .int n => .ok n
+  | .str s => match intOfText s with | some n => .ok n | none => .error .value
+  | .null | .arr _ | .obj _ => .error .type
+
+/-- the loop of `watched_range` over the entries: the ranges of the entries holding the same expression, or the first
+    refusal in reading order. -/
+def collectRanges (wanted : List Char) : List J → R (List Range)
+  | [] => .ok []
+  | e :: es => do
+    let kv ← e.fields
+    let desc ← getField kv "desc"
+    let text ← (match desc with | .str t => .ok t | _ => .error .type : R (List Char))
+    let here ← (if comparable text = wanted then
+        match kv.lookup "range".toList with
+        | none => .ok []
+        | some r => do
+          let l ← r.list
+          match l with
+          | [a, b] => do
+            let s ← a.toInt
+            let e ← b.toInt
+            pure [(s, e)]
+          | _ => .error .value
+      else .ok [] : R (List Range))
+    let rest ← collectRanges wanted es
+    pure (here ++ rest)
+
+/-- the union of a list of ranges, `None` for none. -/
+def unionOf : List Range → Option Range
+  | [] => none
+  | r :: rest => some (rest.foldl (fun a x => min a x.1) r.1, rest.foldl (fun a x => max a x.2) r.2)
+
+/-- `watched_range(descriptor, reply)` on ANY decoded reply. -/
+def watchedRangeJ (d : List Char) (reply : J) : R (Option Range) := do
+  let kv ← reply.fields
+  let ds ← getField kv "descriptors"
+  let l ← ds.list
+  let rs ← collectRanges (comparable d) l
+  pure (unionOf rs)
+
+/-- Python truthiness of a decoded JSON value (`not answer.get("success")`). -/
+def J.truthy : J → Bool
+  | .null => false
+  | .bool b => b
+  | .int n => n != 0
+  | .float (some n) => n != 0
+  | .float none => true
+  | .str s => !s.isEmpty
+  | .arr l => !l.isEmpty
+  | .obj kv => !kv.isEmpty
+
+/-- the loop of `assert_imported` over `zip(requests, answers)`. -/
+def importedLoop : List J → List J → R Unit
+  | rq :: rqs, an :: ans => do
+    let _ ← rq.fields
+    let kv ← an.fields
+    if !((kv.lookup "success".toList).map J.truthy).getD false then .error .runtime
+    else importedLoop rqs ans
+  | _, _ => .ok ()
+
+/-- `assert_imported(requests, answers)` on ANY decoded arguments. -/
+def assertImportedJ (requests answers : J) : R Unit := do
+  let rq ← requests.list
+  let an ← answers.list
+  if rq.length ≠ an.length then .error .runtime else importedLoop rq an
+
+/-- a well-typed `listdescriptors` reply: what a node that follows the rpc documentation answers. -/
+def Entry.toJ (e : Entry) : J :=
+  .obj (("desc".toList, .str e.desc) ::
+    (match e.range with | some r => [("range".toList, .arr [.int r.1, .int r.2])] | none => []))
+
+def replyOf (es : List Entry) : J := .obj [("wallet_name".toList, .str []), ("descriptors".toList, .arr (es.map Entry.toJ))]
+
 end Btc.CoreImport
